@@ -56,7 +56,7 @@ PROPS["C20"] = {
 
 PROPS["C10"] = {
     "budget": {"quick": 50, "thorough": 480},
-    "rule": "type universe closed under array, tuple(2-3), function(0-2 params), mut, struct(fields of {a,b,c}), union(2-3) over {bool,int,float,string,(),any,!}: depth <= 1 enumerated completely "
+    "rule": "type universe closed under array, tuple(2-3), function(0-2 params), mut, struct(fields of {a,b,c}), union(2-3) over {bool,int,float,string,(),any,!}: depth <= 1 enumerated completely (plus unions of same-arity function types next to the single function types over the union of their parameters / results; 503 types) "
             "(all ordered pairs; all triples whose two premises hold; every law instance), depth 2-3 sampled as chains A <= B <= C built by widening. Each law of the statement is a predicate over answers of the real "
             "Type::matches / | / conjoin / ==; semantic soundness: every generated value of A (and every value whose runtime type matches B) must belong to B by the harness's own membership test. "
             "Only the stated direction of each law is demanded. distinct_nontrivial = distinct types, ordered pairs, chains and (value, type) soundness instances evaluated.",
